@@ -109,6 +109,10 @@ class SymArr:
             r.prefix_of = getattr(self, "prefix_of", None)
         r.is_list = self.is_list
         r.name = self.name
+        if hasattr(self, "member"):
+            r.member = self.member
+        if hasattr(self, "elem_range"):
+            r.elem_range = self.elem_range
         return r
 
     # -- mutation -----------------------------------------------------
